@@ -343,6 +343,100 @@ fn run_x(line: &str) -> String {
     format!("X {} {} {} {} {}", sum, max, flushes, nonzero, lastg)
 }
 
+// (Y) free-running histogram stress, no scheduler, sampling off:
+//   `Y <recorders> <values per recorder> <keys 1|2> <dist 0|1> <sleep between flushes, us> <recorder sleep every 1024 values, us>`
+//   recorder t records the distinct integer-valued values t*n .. t*n+n-1 (as f64) into histogram key h<i % keys> while one
+//   thread runs forwarder iterations (State::flush through flush_once) with the given pause; after the join it flushes
+//   until two consecutive iterations carry no histogram payload. Every payload is parsed and every value counted.
+//   stdout: `Y <total> <values seen twice or more> <fabricated values> <values never seen> <flushes begun while recording> <flushes>`
+fn run_y(line: &str) -> String {
+    use std::sync::atomic::{AtomicBool, Ordering};
+    let f: Vec<&str> = line.split_whitespace().collect();
+    let recorders: usize = f[1].parse().unwrap();
+    let n: usize = f[2].parse().unwrap();
+    let keys: usize = f[3].parse().unwrap();
+    let dist = f[4] == "1";
+    let pause = std::time::Duration::from_micros(f[5].parse().unwrap());
+    let rpause = std::time::Duration::from_micros(f[6].parse().unwrap());
+    let mut d = Driver::new(Config {
+        aggressive: false,
+        histogram_sampling: false,
+        histogram_reservoir_size: 16,
+        histograms_as_distributions: dist,
+        global_labels: Vec::new(),
+        global_prefix: None,
+        max_payload_len: 8192,
+        length_prefixed: false,
+    });
+    let hs: Vec<Histogram> = (0..keys).map(|k| d.histogram(&Key::from_name(format!("h{}", k)))).collect();
+    let total = recorders * n;
+    let recording = Arc::new(AtomicBool::new(true));
+    let mut threads = Vec::new();
+    for t in 0..recorders {
+        let hs = hs.clone();
+        threads.push(std::thread::spawn(move || {
+            for i in 0..n {
+                hs[i % hs.len()].record((t * n + i) as f64);
+                if i % 1024 == 1023 && !rpause.is_zero() {
+                    std::thread::sleep(rpause);
+                }
+            }
+        }));
+    }
+    let rec2 = recording.clone();
+    let flusher = std::thread::spawn(move || {
+        let mut counts = vec![0u8; total];
+        let (mut fabricated, mut flushes, mut during, mut empty_rounds) = (0u64, 0u64, 0u64, 0u32);
+        loop {
+            let still = rec2.load(Ordering::SeqCst);
+            if still {
+                during += 1;
+            }
+            flushes += 1;
+            let (ps, _) = d.flush_once(0);
+            let mut any = false;
+            for p in &ps {
+                if !p.starts_with(b"h") {
+                    continue;
+                }
+                any = true;
+                let s = String::from_utf8_lossy(p);
+                let head = s.split('|').next().unwrap_or("");
+                for v in head.split(':').skip(1) {
+                    match v.parse::<f64>() {
+                        Ok(x) if x >= 0.0 && x.fract() == 0.0 && (x as usize) < total => {
+                            let c = &mut counts[x as usize];
+                            *c = c.saturating_add(1);
+                        }
+                        _ => fabricated += 1,
+                    }
+                }
+            }
+            if !still {
+                if any {
+                    empty_rounds = 0;
+                } else {
+                    empty_rounds += 1;
+                    if empty_rounds >= 2 {
+                        break;
+                    }
+                }
+            } else {
+                std::thread::sleep(pause);
+            }
+        }
+        let dups = counts.iter().filter(|c| **c >= 2).count();
+        let lost = counts.iter().filter(|c| **c == 0).count();
+        (dups, fabricated, lost, during, flushes)
+    });
+    for h in threads {
+        h.join().unwrap();
+    }
+    recording.store(false, Ordering::SeqCst);
+    let (dups, fabricated, lost, during, flushes) = flusher.join().unwrap();
+    format!("Y {} {} {} {} {} {}", total, dups, fabricated, lost, during, flushes)
+}
+
 // only the storage.rs sites take part in the schedule; the registry's own yield points (6xx, C06) inside
 // State::flush are passed through (the registry is not part of this model)
 fn c10_site(site: u32) -> bool {
@@ -360,7 +454,7 @@ fn main() {
         if line.trim().is_empty() {
             continue;
         }
-        let r = if line.starts_with('S') { run_s(&line) } else if line.starts_with('X') { run_x(&line) } else { run_o(&line) };
+        let r = if line.starts_with('S') { run_s(&line) } else if line.starts_with('X') { run_x(&line) } else if line.starts_with('Y') { run_y(&line) } else { run_o(&line) };
         writeln!(w, "{}", r).unwrap();
     }
 }
